@@ -13,20 +13,29 @@ int __real_BZ2_bzRead(int*, BZFILE*, void*, int);
 int __real_inflate(z_streamp, int);
 int __real_BZ2_bzDecompress(bz_stream*);
 
-int __real_compress2(Bytef*, uLongf*, const Bytef*, uLong, int);
+int __real_deflate(z_streamp, int);
+int __real_BZ2_bzCompress(bz_stream*, int);
 
-// "allocation failed inside the compressor": the tape-chosen call of compress2() reports Z_MEM_ERROR
-int __wrap_compress2(Bytef* dest, uLongf* dest_len, const Bytef* source, uLong source_len, int level) {
+// "the compressor fails": the tape-chosen call (counted over all three) of deflate() - which serves gzwrite(),
+// gzclose_w() and compress2() -, BZ2_bzCompress() or (lz4wrap.cpp) LZ4_compress_fast() reports an error
+int __wrap_deflate(z_streamp strm, int flush) {
     if (sim::active() && sim::compress_fail_at() == 0) {
         sim::count_compress_call(true);
-        return Z_MEM_ERROR;
+        return Z_STREAM_ERROR;
     }
     if (sim::active()) { sim::count_compress_call(false); }
-    return __real_compress2(dest, dest_len, source, source_len, level);
+    return __real_deflate(strm, flush);
 }
 
-// every call that produces output counts as progress for the bounded-liveness check (bytes moved through a
-// decompressor, also for in-memory input where no simulated fd is involved)
+int __wrap_BZ2_bzCompress(bz_stream* strm, int action) {
+    if (sim::active() && sim::compress_fail_at() == 0) {
+        sim::count_compress_call(true);
+        return BZ_SEQUENCE_ERROR;
+    }
+    if (sim::active()) { sim::count_compress_call(false); }
+    return __real_BZ2_bzCompress(strm, action);
+}
+
 int __wrap_gzread(gzFile f, voidp buf, unsigned len) {
     const size_t c = sim::decomp_clamp();
     if (c && len > c) { len = static_cast<unsigned>(c); }
